@@ -8,37 +8,37 @@ CHECKS = {
  "C01": ("Real attester + signer + attestation-data strategies: 2-12 overlapping Attest runs from 2-4 client tasks over small duty universes (repeated, re-delivered, re-assigned validators), with data/sign/submit faults. Oracle over the signer-side request log: at most one attestation signing request per (validator, epoch); slot/target/source well-formed; nothing signed or submitted for refused data; submitted data equals signed data.",
          "accounts, beacon nodes and submitter are stubs; seeded sampling",
          TECH + "signer-side history oracle"),
- "C02": ("Seeded search over schedules of the real advanced scheduler: 1-4 jobs and 0-6 API calls placed at -5s/-1ns/0/+1ns/+5s of the timer, every lock/select/atomic a recorded scheduling decision; the recorded history is judged by a contract model (exactly once, run-now success implies a run, cancel clearly before, periodic non-overlap and ticking, name reuse).",
+ "C02": ("Seeded search over schedules of the real advanced scheduler: 1-4 jobs and 0-6 API calls placed at -5s/-1ns/0/+1ns/+5s of the timer, every lock/select/atomic a recorded scheduling decision; the recorded history is judged by a contract model (exactly once, run-now success implies a run, cancel clearly before, periodic non-overlap and ticking, name reuse). Further clauses: a live job (in particular a periodic one) stays known to JobExists/ListJobs/CancelJob/RunJob and keeps its name taken; of overlapping requests to schedule one name at most one is accepted.",
          "job functions and callers are stubs; go-deadlock's detector is disabled under go1.26 (modelled locks replace it)",
          TECH + "contract-model oracle over recorded history"),
- "C03": ("Whole-system simulation: real controller, scheduler and chaintime against a simulated chain (seeded duty tables keyed by duty-dependent roots, head/block event streams from 1-2 nodes, reorgs, missed slots, slow/failing duty requests, crash/restart at arbitrary instants, start before/at/after genesis and on epoch boundaries). Oracle: never two executions per (kind, slot, validator) over all incarnations; every execution carries exactly the validators of the duty set last obtained; every obtained future duty is executed at slot start + configured delay (earlier only when fast-tracked); vouch's slot/epoch/time conversions equal the oracle's integer arithmetic at every probe instant. Run with recording duty services (focused) and with the real ones (full).",
+ "C03": ("Whole-system simulation: real controller, scheduler and chaintime against a simulated chain (seeded duty tables keyed by duty-dependent roots, head/block event streams from 1-2 nodes, reorgs, missed slots, slow/failing duty requests, crash/restart at arbitrary instants, start before/at/after genesis and on epoch boundaries). Oracle: never two executions per (kind, slot, validator) over all incarnations; every execution carries exactly the validators of the duty set last obtained; every obtained future duty is executed at slot start + configured delay (earlier only when fast-tracked); vouch's slot/epoch/time conversions equal the oracle's integer arithmetic at every probe instant. Run with recording duty services (focused) and with the real ones (full). Further clauses: a head event showing changed duty-dependent roots (judged from the events the node delivered) makes vouch request the affected duties again; proposals follow the proposer duties obtained last; a sync committee period lived through has been requested; plans include slow duty requests overlapping reorgs, answers computed at request time, long proposals.",
          "beacon nodes, accounts and event streams are stubs; main.go wiring is reproduced by the harness",
          TECH + "history oracle against the duties the node stub actually served"),
  "C04": ("Same component scenario as C01 with content focus: duties with 1-6 validators over 1-3 committees of distinct sizes, subsets already attested / without account / left unsigned, mixed account kinds. Oracle: each submitted attestation is attributed to its validator through the signer log and must carry that validator's committee index, bit position and committee size and the data obtained for the run; validators without signature yield none.",
          "accounts, beacon nodes and submitter are stubs; seeded sampling",
          TECH + "per-validator attribution through the signer log"),
- "C05": ("Real block proposer (Prepare+Propose) + signer over stub proposal providers, auctioneer, relays and submitter: versions phase0..deneb, full and blinded, proposals for the duty slot or another slot, graffiti and auction failures, per-relay unblinding behaviours. Oracle: RANDAO/block signing only for the duty's validator and slot, signed roots recomputed from the obtained block, submitted = signed block, unblinding provenance, degradation instead of skipping.",
+ "C05": ("Real block proposer (Prepare+Propose) + signer over stub proposal providers, auctioneer, relays and submitter: versions phase0..deneb, full and blinded, proposals for the duty slot or another slot, graffiti and auction failures, per-relay unblinding behaviours. Oracle: RANDAO/block signing only for the duty's validator and slot, signed roots recomputed from the obtained block, submitted = signed block, unblinding provenance, degradation instead of skipping. Includes a slot that was prepared for another of vouch's validators first.",
          "proposal providers, relays, auctioneer and submitter are stubs; seeded sampling",
          TECH + "history oracle with independently recomputed SSZ roots"),
- "C06": ("Real signer driven through all its signing methods with generated messages and batches over all four account kinds, a generated fork schedule and signer faults. Oracle: every returned signature verifies with real BLS under the requested account's key against compute_signing_root built independently from the specification (object root, domain type, fork version of the duty's epoch); batch position i belongs to account i.",
+ "C06": ("Real signer driven through all its signing methods with generated messages and batches over all four account kinds, a generated fork schedule and signer faults. Oracle: every returned signature verifies with real BLS under the requested account's key against compute_signing_root built independently from the specification (object root, domain type, fork version of the duty's epoch); batch position i belongs to account i. Includes a specification without the builder domain type and failing domain requests.",
          "the remote signer/accounts are stubs backed by real BLS keys; inputs dominate this property, simulation contributes fork-boundary time, partial signer faults and batch mixtures",
          TECH + "real BLS verification against independently merkleised signing roots"),
- "C07": ("Each of the 14 data strategies alone with 1-5 stub providers whose latencies lie on/around the soft and hard deadline, errors, hangs, providers ignoring cancellation, invalid content by the strategy's stated rules, two sequential calls. Oracle: returns by start+timeout; value is one some provider of this call returned by then and valid; error only without a valid response; best not dominated (one-dimensional dominance); majority count/threshold rules incl. not giving up early; ties at one instant accepted either way.",
+ "C07": ("Each of the 14 data strategies alone with 1-5 stub providers whose latencies lie on/around the soft and hard deadline, errors, hangs, providers ignoring cancellation, invalid content by the strategy's stated rules, two sequential calls. Oracle: returns by start+timeout; value is one some provider of this call returned by then and valid; error only without a valid response; best not dominated (one-dimensional dominance); majority count/threshold rules incl. not giving up early; ties at one instant accepted either way. Includes self-consistent data of another epoch, {{CLIENT}} graffiti with client names of any length; a strategy that spins (no simulated time passing) is reported as livelock.",
          "providers, chaintime input and block-root cache are stubs; seeded sampling",
          TECH + "response-attribution oracle over stub histories"),
- "C08": ("Real multinode (8 kinds) and immediate submitters with util.Scatter over 1-5 stub nodes: payload 1-40 with concurrency 1-8, accept / reject / tolerated rejection texts in the client libraries' rendering / malformed / slow / hang, instant answers (lost wake-up schedule) and answers at the timeout instant. Oracle: every node offered the full payload exactly once; success iff some node accepted or rejected only for a tolerated reason by the timeout; returns by the timeout; node isolation.",
+ "C08": ("Real multinode (8 kinds) and immediate submitters with util.Scatter over 1-5 stub nodes: payload 1-40 with concurrency 1-8, accept / reject / tolerated rejection texts in the client libraries' rendering / malformed / slow / hang, instant answers (lost wake-up schedule) and answers at the timeout instant. Oracle: every node offered the full payload exactly once; success iff some node accepted or rejected only for a tolerated reason by the timeout; returns by the timeout; node isolation. Includes earlier submissions with hanging calls on the same service instance, a hanging version query, and the clause that every node is offered the submission the moment it is made (concurrency permitting).",
          "beacon nodes are stubs rendering errors with go-eth2-client's own error types; seeded sampling",
          TECH + "delivery/verdict oracle over stub histories"),
- "C09": ("Real builderbid best/deadline strategies over stub relays signing bids with real BLS: values, builders, timestamps, fee recipients, signature validity, latencies around the deadline, improving bid sequences, equal headers, relay minimums, builder offset/factor/excluded. Oracle: reference eligibility and score from the property statement; winner maximal among eligible bids returned before the return instant; providers offered the winning header; no eligible bid => no winner.",
+ "C09": ("Real builderbid best/deadline strategies over stub relays signing bids with real BLS: values, builders, timestamps, fee recipients, signature validity, latencies around the deadline, improving bid sequences, equal headers, relay minimums, builder offset/factor/excluded. Oracle: reference eligibility and score from the property statement; winner maximal among eligible bids returned before the return instant; providers offered the winning header; no eligible bid => no winner. A third scenario drives blockrelay.BuilderBid (REST interface) with several beacon nodes asking for one bid: a bid handed out has a positive value.",
          "relays are stubs; seeded sampling",
          TECH + "reference eligibility/score oracle"),
  "C10": ("Real block relay + v1/v2 config parsing fed by a stub configuration source with generated documents (all presence patterns over five levels, ordered proposer entries by key/regex, reset_relays, disabled/added relays). Oracle: independent reference resolver written from docs/, compared field by field with ProposerConfig results; marshal/unmarshal round trip resolves identically.",
          "configuration source, relays and accounts are stubs; resolution is a function of (document, validator) observed over a history of documents",
          TECH + "reference resolver written from the documentation"),
- "C11": ("Real block relay registration rounds and proposal preparer over stub relays/nodes with configuration changes between rounds and partial failures. Oracle: each (validator, relay) registration names the key with the reference-resolved fee recipient and gas limit and is BLS-signed over them; preparations carry the resolved fee recipient; cached registrations only on equal content; failures are isolated.",
+ "C11": ("Real block relay registration rounds and proposal preparer over stub relays/nodes with configuration changes between rounds and partial failures. Oracle: each (validator, relay) registration names the key with the reference-resolved fee recipient and gas limit and is BLS-signed over them; preparations carry the resolved fee recipient; cached registrations only on equal content; failures are isolated. Includes failing domain requests; a failed signature excuses only the relays whose registration content it was for.",
          "configuration source, relays, nodes are stubs; seeded sampling",
          TECH + "reference resolver + BLS verification at the receiving stubs"),
- "C12": ("Real block relay under arbitrary sequences of configuration fetch outcomes interleaved with concurrent lookups, auctions, registrations. Oracle: last-good-configuration model; modelled RWMutex (writer preference) detects deadlock and leaked locks; every request returns.",
+ "C12": ("Real block relay under arbitrary sequences of configuration fetch outcomes interleaved with concurrent lookups, auctions, registrations. Oracle: last-good-configuration model; modelled RWMutex (writer preference) detects deadlock and leaked locks; every request returns. Includes relay addresses no client can be made for, gas-only configuration changes; what a round tells a relay stems from a configuration in force during the round.",
          "configuration source and relays are stubs; lock model replaces go-deadlock",
          TECH + "lock-model deadlock/leak detection and last-good-config model"),
  "C13": ("Real wallet and dirk account managers and validators manager with stub wallets/validators provider: specifier lists (plain, wallet-only, regex with/without anchors, traps), validator life cycles swept by simulated time, refresh outcomes (full, partial, empty, error) interleaved with lookups. Oracle: reference model (full match of wallet/account, activation <= e < exit and not slashed, sync eligibility until withdrawable, retain-on-empty).",
@@ -47,19 +47,19 @@ CHECKS = {
  "C14": ("Whole-system simulation with the real beacon committee subscriber, attestation aggregator, attester, signer (real BLS), controller and scheduler: duties before/at/after the current slot, several committees per slot, both outcomes of is_aggregator, start-up mid-epoch/on boundaries, reorg refreshes. Oracle: every subscription request contains every duty later than the slot current at submission, entries match the validator's duty, aggregator flag equals the specification's is_aggregator on the signer-logged slot signature, an aggregation runs at slot start + configured delay for every committee with a selected validator and only for selected validators.",
          "beacon node, accounts provider and event stream are stubs; seeded sampling",
          TECH + "independently implemented specification rules over the signer log"),
- "C15": ("Whole-system simulation with the real sync committee messenger, aggregator, subscriber, controller sync scheduling, signer (real BLS): short periods, start before/at genesis, inside the first period, around a period boundary; a member without account, a withheld signature, head-root failures, missed slots. Oracle: per member and slot of the window exactly one message by slot start + configured delay, BLS-verified over a head root the node returned in that slot; contribution aggregators equal is_sync_committee_aggregator on the recorded selection proof; one member's absence removes only its own messages.",
+ "C15": ("Whole-system simulation with the real sync committee messenger, aggregator, subscriber, controller sync scheduling, signer (real BLS): short periods, start before/at genesis, inside the first period, around a period boundary; a member without account, a withheld signature, head-root failures, missed slots. Oracle: per member and slot of the window exactly one message by slot start + configured delay, BLS-verified over a head root the node returned in that slot; contribution aggregators equal is_sync_committee_aggregator on the recorded selection proof; one member's absence removes only its own messages. Includes reorgs in the first epoch of a period, a start exactly the preparation lead before a period boundary (a period never requested is a violation), a withheld contribution signature.",
          "beacon node, accounts provider and event stream are stubs; contribution content is a stub value",
          TECH + "independently implemented specification rules and real BLS verification"),
- "C16": ("Odd-content fault kind switched on in the whole-system simulation and in component scenarios: nil data and nested pointers, empty lists, duplicate/out-of-range duties, other-slot payloads, nil values, blinded proposal without auction, odd relay addresses, graffiti, configuration shapes. Oracle: no panic/fatal error in any task (every instrumented goroutine runs under a recover wrapper), and the next clean duty completes.",
+ "C16": ("Odd-content fault kind switched on in the whole-system simulation and in component scenarios: nil data and nested pointers, empty lists, duplicate/out-of-range duties, other-slot payloads, nil values, blinded proposal without auction, odd relay addresses, graffiti, configuration shapes. Oracle: no panic/fatal error in any task (every instrumented goroutine runs under a recover wrapper), and the next clean duty completes. Also: odd-shaped execution configuration documents (JSON nodes nulled/emptied/retyped), odd error bodies of rejected submissions, block headers without content, zero or absurd specification values, graffiti sources (blank files, templates, failing source), unobtainable builder clients asked repeatedly.",
          "inputs dominate this property; realised as a fault kind with a crash oracle",
          TECH + "crash oracle (recover wrapper on every task)"),
- "C17": ("Whole-system simulation and focused pairs built with -race and scheduled by the controller, whose park protocol adds no happens-before edge: the Go race detector reports unsynchronised conflicting accesses between vouch's own goroutines under seeded, replayable interleavings.",
+ "C17": ("Whole-system simulation and focused pairs built with -race and scheduled by the controller, whose park protocol adds no happens-before edge: the Go race detector reports unsynchronised conflicting accesses between vouch's own goroutines under seeded, replayable interleavings. Also judged: outcomes of no sequential order (double attestation by overlapping duty jobs, a second auction for one builder bid, a lookup mixing account states). Races between accesses at different simulated instants are visible (the controller's own timer is bracketed by RaceDisable).",
          "race reports are filtered to pairs of stacks inside vouch; harness accesses use race-invisible critical sections",
          TECH + "Go race detector under a controlled schedule"),
  "C18": ("Real block-root-to-slot cache with the real scheduler (cleaning job) and chaintime over stub event and header providers: block events, hits, misses, concurrent misses, fetch failures/late answers, lookups at the edges of the retention window across cleaning runs. Oracle: reference map; a lookup returns that root's slot or an error iff its fetch failed; entries inside the retention window are still hits.",
          "events and header providers are stubs; retention window taken from the cache's own comment (64 epochs)",
          TECH + "reference-map oracle"),
- "C20": ("Whole-system simulation run for 21 epochs with steady duties: warm-up, measured window A, fault storm (reorgs withdrawing duties, missed slots), quiet epochs, measured window B at the same phase of the sync committee period. Oracle: size of each bookkeeping structure named in the property (read reflectively) and the live task count at B do not exceed A; HasPendingAttestations(slot) equals 'an attestation job for the slot is outstanding' (from the scheduler seam) at every settled point.",
+ "C20": ("Whole-system simulation run for 21 epochs with steady duties: warm-up, measured window A, fault storm (reorgs withdrawing duties, missed slots), quiet epochs, measured window B at the same phase of the sync committee period. Oracle: size of each bookkeeping structure named in the property (read reflectively) and the live task count at B do not exceed A; HasPendingAttestations(slot) equals 'an attestation job for the slot is outstanding' (from the scheduler seam) at every settled point. Also: a node that never answers (no client timeout), head-root failures (measured one period later), goroutines stalled after ScheduleJob, attestation jobs outlasting the next head event.",
          "sizes are read through reflection on unexported fields (a renamed field is harness trouble, exit 2); 12 epochs of warm-up define the accepted fixed window",
          TECH + "steady-state comparison at equal period phase + pending-mark model"),
 }
